@@ -582,11 +582,32 @@ func checkLoadNormalisation(w *World, r *Report) {
 					pr := w.EnumPaths(saveFn, EnumOpts{Start: body})
 					r.Count("paths", len(pr.Paths))
 					okAll = len(pr.Paths) > 0
+					// the records go to the Jobs field of the snapshot: stored there in the loop, or the
+					// function hands the grown slice back and its caller stores it there
+					viaReturn := false
+					if rs := saveFn.Signature.Results(); rs.Len() == 1 && strings.HasSuffix(rs.At(0).Type().String(), "store.PersistedJob") {
+						for _, caller := range w.ModFuncs {
+							for _, ci := range findCalls(caller, func(_ string, c *ssa.CallCommon) bool { return c.StaticCallee() == saveFn }) {
+								if cv, ok := ci.(*ssa.Call); ok && cv.Referrers() != nil {
+									for _, ref := range *cv.Referrers() {
+										if st, ok := ref.(*ssa.Store); ok && st.Val == ssa.Value(cv) && strings.HasSuffix(w.apAddr(st.Addr), ".Jobs") {
+											viaReturn = true
+										}
+									}
+								}
+							}
+						}
+					}
 					for _, p := range pr.Paths {
 						n := 0
 						for _, e := range p.Effects {
 							if e.Kind == "store" && strings.HasSuffix(e.Target, ".Jobs") && strings.Contains(e.Val, "append(") {
 								n++
+							}
+							if viaReturn && e.Kind == "call" && e.Target == "append" {
+								if cv, ok := e.In.(*ssa.Call); ok && strings.HasSuffix(cv.Type().String(), "store.PersistedJob") {
+									n++
+								}
 							}
 						}
 						if n != 1 {
